@@ -79,6 +79,7 @@ var redirectNames = map[string]string{
 
 var initAllow = map[string]bool{
 	"github.com/NickBall/go-aes-key-wrap": true,
+	"encoding/hex":                        true,
 }
 
 func (e *Engine) initAllowed(path string) bool {
